@@ -49,6 +49,9 @@ pub enum CloseManner {
     ChannelClose,
     /// RST (SO_LINGER 0) / SSH connection dropped / child aborts
     Abrupt,
+    /// TLS / SSH only: plain TCP FIN without a TLS close_notify or an SSH-level goodbye (a server
+    /// process that was killed: the kernel closes its socket in an orderly way)
+    FinOnly,
 }
 
 impl CloseManner {
@@ -57,6 +60,7 @@ impl CloseManner {
             CloseManner::Clean => "clean",
             CloseManner::ChannelClose => "channel-close",
             CloseManner::Abrupt => "abrupt",
+            CloseManner::FinOnly => "fin-only",
         }
     }
 }
@@ -241,6 +245,18 @@ impl Conn {
                     let _ = s.get_ref().0.set_linger(Some(Duration::ZERO));
                     drop(s);
                 }
+                CloseManner::FinOnly => {
+                    use std::os::fd::AsRawFd;
+                    let fd = s.get_ref().0.as_raw_fd();
+                    // FIN now, no close_notify; keep the socket so that no RST follows
+                    unsafe {
+                        libc::shutdown(fd, libc::SHUT_WR);
+                    }
+                    tokio::spawn(async move {
+                        tokio::time::sleep(Duration::from_secs(20)).await;
+                        drop(s);
+                    });
+                }
                 _ => {
                     let _ = s.shutdown().await;
                     drop(s);
@@ -267,6 +283,15 @@ impl Conn {
                             }
                         }
                         join.abort();
+                    }
+                    CloseManner::FinOnly => {
+                        // what was queued has to reach the socket before it is half-closed
+                        tokio::time::sleep(Duration::from_millis(30)).await;
+                        if let Some(fd) = raw {
+                            unsafe {
+                                libc::shutdown(fd, libc::SHUT_WR);
+                            }
+                        }
                     }
                 }
                 // keep the server session task alive a little so that the message is flushed
